@@ -196,7 +196,10 @@ class FakeHidOS:
         if gw.arrived:
             gw.nreports_delivered += 1
             data = gw.arrived.popleft()
-            if getattr(gw, "elog", None) and data[0] in (0x12, 0x01):
+            if getattr(gw, "elog", None) and isinstance(gw, GwHasseb):
+                if data[0] != 0:
+                    gw.elog({"ev": "deliver"})
+            elif getattr(gw, "elog", None) and data[0] in (0x12, 0x01):
                 gw.elog({"ev": "deliver" if data[0] == 0x12 else "deliver_info"})
             gw.fire("after_report", gw.nreports_delivered)
             return data
@@ -218,7 +221,7 @@ class FakeHidOS:
                               "now": round(gw.loop.time(), 6), "failed": 1})
             gw.fire("after_write", len(gw.writes))
             raise OSError(19, "No such device")
-        if getattr(gw, "elog", None) and data[0] == 0x12:
+        if getattr(gw, "elog", None) and data[0] == 0x12 and not isinstance(gw, GwHasseb):
             k = "edt" if (data[3] == 3 and data[6] == 0xC1) else "cmd"
             gw.elog({"ev": "write", "c": _task_name(), "kind": k})
         gw.log_write(data)
@@ -311,6 +314,9 @@ class GwHasseb(Gateway):
         outcome = self.answer_for(k, frame, 16)
         self.cmdlog.append({"ix": k + 1, "task": self.writes[-1]["task"], "frame": frame, "bits": 16,
                             "twice": 1 if twice else 0, "outcome": list(outcome), "seq": 0, "write": len(self.writes)})
+        if getattr(self, "elog", None):
+            self.elog({"ev": "write", "c": self.writes[-1]["task"], "kind": "edt" if frame >> 8 == 0xC1 else "cmd",
+                       "outcome": outcome[0], "value": outcome[1]})
         if query:
             if outcome[0] == "none":
                 self.emit([1, 0])
